@@ -119,6 +119,10 @@ def st_packet(tier):
             c["dw"] = draw(st.sampled_from([8, 16, 32, 64]))
             c["hdr"] = C16.st_header(draw, c["dw"])
             c["pk"] = C16.st_packets(draw, c["hdr"], c["dw"], npk_max=3, beats_max=6)
+            if kind == "depacketizer" and c["hdr"]["length"] % (c["dw"] // 8):
+                # packets that end in the word carrying the header's left-over bytes (a Depacketizer used alone can meet them)
+                for p_ in c["pk"]:
+                    p_["short"] = draw(st.integers(0, 2)) == 0
             c["ps"] = draw(bench.st_schedule())
         elif kind == "fifo":
             c.update({"depth": draw(st.sampled_from([2, 4, 8])), "buffered": draw(st.booleans()), "maxlen": draw(st.integers(1, 2))})
